@@ -70,6 +70,27 @@ fn passes(prop: &str, tier: Tier) -> Vec<Bounds> {
             return vec![b];
         }
     }
+    // experiment hook: VERIF_HIST_NARROW="6,3,1;0,0,0;1:1,8:8,2:2[;strategies]" = additions per step;
+    // removals per step; shapes size:align; optional strategy indices
+    if let Ok(spec) = std::env::var("VERIF_HIST_NARROW") {
+        let parts: Vec<&str> = spec.split(';').collect();
+        if parts.len() >= 3 {
+            let nums = |s: &str| s.split(',').filter_map(|x| x.parse::<usize>().ok()).collect::<Vec<_>>();
+            let shapes = parts[2]
+                .split(',')
+                .filter_map(|x| {
+                    let mut it = x.split(':');
+                    Some(S(it.next()?.parse().ok()?, it.next()?.parse().ok()?))
+                })
+                .collect();
+            let mut b = narrow(nums(parts[0]), nums(parts[1]), shapes);
+            if let Some(st) = parts.get(3) {
+                b.strategies = nums(st).into_iter().map(|x| x as u8).collect();
+            }
+            b.prop = if prop == "C12L" { "C12".to_owned() } else { prop.to_owned() };
+            return vec![b];
+        }
+    }
     let mut v = passes_inner(prop, tier);
     for b in &mut v {
         b.prop = if prop == "C12L" { "C12".to_owned() } else { prop.to_owned() };
@@ -91,6 +112,17 @@ fn passes_inner(prop: &str, tier: Tier) -> Vec<Bounds> {
                 // removals and two additions in the second step, one more step
                 v.push(narrow(vec![5, 2, 1], vec![0, 2, 1], vec![S(1, 1), S(4, 4), S(12, 4)]));
                 v.push(narrow(vec![3, 2, 1], vec![0, 1, 1], vec![S(1, 1), S(4, 4), S(6, 4), S(2, 2)]));
+                // deeper still and narrower: six data in the first variant (three padding gaps under
+                // the append strategies), three additions into them, one more close; no removals
+                v.push(narrow(vec![6, 3, 1], vec![0, 0, 0], vec![S(1, 1), S(8, 8), S(2, 2)]));
+                if prop == "C01" || prop == "C02" {
+                    // six data, then three removed and three added in one `simple` close (a wide hole
+                    // split by an aligned datum, two exact fits in the holes behind it), then one more
+                    // close: the smallest bound that reaches seed C01g
+                    let mut b = narrow(if prop == "C01" { vec![6, 3, 1] } else { vec![6, 3] }, if prop == "C01" { vec![0, 3, 0] } else { vec![0, 3] }, vec![S(1, 1), S(3, 1), S(4, 4), S(6, 1), S(8, 8)]);
+                    b.strategies = vec![0];
+                    v.push(b);
+                }
                 v
             } else {
                 // ordered by cost; the generated-text oracles run on the first three (gen_text())
@@ -106,6 +138,7 @@ fn passes_inner(prop: &str, tier: Tier) -> Vec<Bounds> {
                     bounds(3, 3, 2, 2, shapes8()),
                     narrow(vec![5, 2, 1], vec![0, 2, 1], vec![S(1, 1), S(4, 4), S(12, 4)]),
                     narrow(vec![6, 2, 2], vec![0, 3, 1], vec![S(1, 1), S(4, 4), S(12, 4), S(2, 2)]),
+                    narrow(vec![6, 3, 1], vec![0, 3, 1], vec![S(1, 1), S(3, 1), S(4, 4), S(6, 1), S(8, 8)]),
                 ]
                 .into_iter()
                 .enumerate()
